@@ -146,6 +146,65 @@ def check_mask_invariant(res, facts):
         res.ob('R-MASK', 'is_allowed', ok and not spec_fields_changed(pre, o.cells[cell], Q_FIELDS), 'is_allowed = %r; expected bit `note` of the mask' % (o.ret,), where_of(facts, Q + '::is_allowed'))
 
 
+def check_forbid_rescue(res, facts):
+    """forbid(notes) = allowed & !bits(notes), except that an emptied scale becomes exactly {last note of the argument};
+    decided exactly for argument slices of length 1 and 2 with symbolic notes (the for_each is unrolled)"""
+    from ..terms import t_bitand, t_shl
+    qz = Qz(facts)
+    where = where_of(facts, Q + '::forbid')
+    for ln in (1, 2):
+        it = qz.interp()
+        st = State()
+        q = qz.quantizer(it, st, cached=None)
+        notes = it.sym_value(st, {'k': 'ref', 'mut': False, 'ty': {'k': 'slice', 'ty': adt_ty(NOTE)}}, 'notes')
+        notes.len = Poly.const(ln)
+        A = Poly.sym('self.allowed')
+        outs, cell = run_method(it, st, Q + '::forbid', q, [notes])
+        res.absorb(it)
+        ns = [Poly.sym("elem(('sym', 'notes'),%d).0" % i) for i in range(ln)]
+        for o in sem_iter(outs):
+            inst = 'forbid|len=%d' % ln
+            if o.status != 'returned':
+                res.ob('R-MASK', inst, False, 'path ends with %s: %s' % (o.status, o.panic_info), where, key='R-MASK:rescue-path:%d' % ln)
+                continue
+            Bt = A
+            for n_ in ns:
+                Bt = t_bitand(Bt, Poly.const(65535) - t_shl(ONE, n_, o.ctx), o.ctx)
+            emptied = o.ctx.decide(cmp_term('Eq', Bt, 0))
+            got = o.cells[cell].get('allowed').term
+            if emptied is True:
+                exp = t_shl(ONE, ns[-1], o.ctx)
+            elif emptied is False:
+                exp = Bt
+            else:
+                exp = None
+            res.ob('R-MASK', inst + '|result = cleared mask, or exactly the last note of the argument when that would be empty', exp is not None and got == exp,
+                   'allowed after forbid = %r; expected %r (the path does not decide whether the cleared mask %r is empty: %s)' % (got, exp, Bt, emptied), where,
+                   key='R-MASK:rescue:%d' % ln)
+
+
+def check_scale_edits_keep_cache(res, facts):
+    """C09: allow()/forbid() edit the scale only; the previous conversion (the hysteresis window) is left alone"""
+    qz = Qz(facts)
+    for meth in ('allow', 'forbid'):
+        for part, lr in (('len=0', (0, 0)), ('len>=1', (1, 2 ** 20))):
+            it = qz.interp()
+            st = State()
+            q = qz.quantizer(it, st, cached='consistent')
+            notes = it.sym_value(st, {'k': 'ref', 'mut': False, 'ty': {'k': 'slice', 'ty': adt_ty(NOTE)}}, 'notes')
+            if lr[0] == lr[1]:
+                notes.len = Poly.const(lr[0])
+            else:
+                st.ctx.ranges[notes.len.as_single_atom()] = (Fr(lr[0]), Fr(lr[1]))
+            pre = copy.deepcopy(q)
+            outs, cell = run_method(it, st, Q + '::' + meth, q, [notes])
+            res.absorb(it)
+            for o in sem_iter(outs):
+                ch = [c for c in spec_fields_changed(pre, o.cells[cell], Q_FIELDS) if c.startswith('cached_conversion')]
+                res.ob('R-HYST', '%s|%s keeps the previous conversion' % (meth, part), o.status == 'returned' and not ch,
+                       'scale edit changes %s: the hysteresis window of a note that is still allowed would be lost' % ch, where_of(facts, Q + '::' + meth), key='R-HYST:scale-edit:%s:%s' % (meth, part))
+
+
 def newtype_sites(res, facts, path, lo, hi):
     """R-NEWTYPE: every construction site of the newtype inside the crate stores a value within the invariant
     (so the clamping constructor is the only way in)."""
@@ -189,7 +248,8 @@ def check_convert(res, facts, prop):
     qz = Qz(facts)
     where = where_of(facts, Q + '::convert')
     W, H = qz.W, qz.HYST
-    res.ob('R-HYST', 'constants', abs(W - Fr(1, 12)) < Fr(1, 10 ** 7) and abs(H - Fr(1, 120)) < Fr(1, 10 ** 7) and qz.VMAX == qz.MAX_OCT,
+    if prop in ('C09', 'C19'):
+      res.ob('R-HYST', 'constants', abs(W - Fr(1, 12)) < Fr(1, 10 ** 7) and abs(H - Fr(1, 120)) < Fr(1, 10 ** 7) and qz.VMAX == qz.MAX_OCT,
            'SEMITONE_WIDTH=%s HYSTERESIS=%s V_MAX=%s (expected 1/12, 1/120, MAX_OCTAVE)' % (float(W), float(H), float(qz.VMAX)))
     n = 0
     for cached in ('consistent', 'fresh'):
@@ -215,7 +275,8 @@ def check_convert(res, facts, prop):
                 early = not fnn
                 ret = o.ret
                 # the returned record is the cached record
-                res.ob('R-RECORD', inst + '|returns the cached record', same(ret, cc1), 'returned %r, cached %r' % (ret, cc1), where, key='R-RECORD:ret:%s:%s' % (inst, early))
+                if prop == 'C19':
+                    res.ob('R-RECORD', inst + '|returns the cached record', same(ret, cc1), 'returned %r, cached %r' % (ret, cc1), where, key='R-RECORD:ret:%s:%s' % (inst, early))
                 if early:
                     if cached == 'fresh' and prop not in ('C09', 'C19'):
                         continue
